@@ -14,7 +14,7 @@ func init() { registry["C05"] = propC05 }
 func propC05() *Property {
 	return &Property{
 		ID:          "C05",
-		Explanation: "Static typestate, dominance and error-discipline rules on the fetch path. Decided: (R1) every connection obtained from net/crypto/tls is given a deadline derived from time.Now() and the configured timeout before any Write, Read or hand-off to a reader, on every path, and the deadline is not renewed inside a loop; (R2) in jtp, client, object and pub no error result is dropped: every one is returned, wrapped, converted into a failure item, stored next to its value or classified with errors.Is, and the values that came with it are used only where it is known to be nil (or travel together with it); (R3) a body that fails to decode never becomes a document (shared with C03.R1); (R4) pub.NewFailure is never called with a possibly-nil error (it panics). (R5) the response head is parsed from complete lines only: every recogniser input is result #0 of ReadString('\\n') with the error known nil at the use (same rule as C03.R7), so a head that is cut off, stalls or is reset inside a line ends in an error. (R6) package-level state on the fetch path is written by initialisers only and shared documents are never updated in place (C08.R6 run here: two concurrent faults must not be able to crash the process); (R7) every acquisition on a channel that outlives the call is released on every path to every return of the function, error paths included. Not decided: actual wall-clock bounds, kernel/TLS behaviour, what happens for a non-positive configured timeout (C19 demands its validation).",
+		Explanation: "Static typestate, dominance and error-discipline rules on the fetch path. Decided: (R1) every connection obtained from net/crypto/tls is given a deadline derived from time.Now() and the configured timeout before any Write, Read or hand-off to a reader, on every path, and the deadline is not renewed inside a loop; (R2) in jtp, client, object and pub no error result is dropped: every one is returned, wrapped, converted into a failure item, stored next to its value or classified with errors.Is, and the values that came with it are used only where it is known to be nil (or travel together with it); (R3) a body that fails to decode never becomes a document (shared with C03.R1); (R4) pub.NewFailure is never called with a possibly-nil error (it panics). (R5) the response head is parsed from complete lines only: every recogniser input is result #0 of ReadString('\\n') with the error known nil at the use (same rule as C03.R7), so a head that is cut off, stalls or is reset inside a line ends in an error. (R6) package-level state on the fetch path is written by initialisers only and shared documents are never updated in place (C08.R6 run here: two concurrent faults must not be able to crash the process); (R7) every acquisition on a channel that outlives the call is released on every path to every return of the function, error paths included. (R1, addition) every dial goes through a net.Dialer (or DialTimeout) whose Timeout is config.Parsed.Network.Timeout itself, so connecting and the handshake are bounded too. (R8) every index into the pieces of a split text is within the number of pieces known at that point (C06.K9 run here: a garbage status line must not crash the fetch). Not decided: actual wall-clock bounds, kernel/TLS behaviour, what happens for a non-positive configured timeout (C19 demands its validation).",
 		Assumptions: []string{
 			"net.Conn deadlines bound every subsequent Read/Write on the connection (library semantics)",
 			"encoding/json.Decoder reports an error for incomplete or trailing-garbage-free truncated objects",
